@@ -20,7 +20,7 @@ const (
 	optPool   = 4
 	optSkip   = 8
 	optDSAD   = 16
-	guardLen  = 3
+	guardLen  = 64 // spare capacity behind every input buffer: what an unclamped NoCopy decode can over-slice into
 	guardByte = 0xEE
 )
 
@@ -239,12 +239,20 @@ func obsOf(p gopacket.Packet) string {
 
 // ---------------------------------------------------------------- ops
 
-func newBuf(data []byte) []byte {
+func newBuf(data []byte) []byte { return newBufTail(data, nil) }
+
+// newBufTail: the guard zone behind the input starts with `tail` (for a truncated fixture: the bytes that were
+// cut off — the most plausible "foreign bytes" a decoder slicing past len(data) would pick up), then guardByte.
+func newBufTail(data, tail []byte) []byte {
 	b := make([]byte, len(data), len(data)+guardLen)
 	copy(b, data)
 	g := b[:cap(b)]
 	for i := len(data); i < len(g); i++ {
-		g[i] = guardByte
+		if j := i - len(data); j < len(tail) {
+			g[i] = tail[j]
+		} else {
+			g[i] = guardByte
+		}
 	}
 	return b
 }
@@ -667,7 +675,7 @@ func exec(a []string) string {
 		tab.decs[i] = b
 		return "ok"
 	case "buf":
-		if len(a) != 4 {
+		if len(a) != 4 && len(a) != 5 {
 			return "bad-op"
 		}
 		k, ok := lib.Atoi(a[2])
@@ -675,7 +683,16 @@ func exec(a []string) string {
 		if !ok || !ok2 || k < 0 {
 			return "bad-op"
 		}
-		bufs[k] = newBuf(d)
+		var tail []byte
+		if len(a) == 5 {
+			t, ok3 := lib.UnHex(a[4])
+			if !ok3 {
+				return "bad-op"
+			}
+			tail = t
+			lib.Stat("buf:with-tail")
+		}
+		bufs[k] = newBufTail(d, tail)
 		return "ok"
 	case "new", "rnew":
 		if len(a) != 6 {
